@@ -52,7 +52,11 @@ def fingerprint_uptime(
         return UptimeResult(packet)
 
     ms_diff = get_unix_time_ms() - last_packet_signature.received
-    ts_diff = packet.tcp.options.timestamp - last_packet_signature.options.timestamp
+    # Timestamps are 32-bit counters: do the arithmetic modulo 2**32, like p0f.
+    ts_diff = (
+        packet.tcp.options.timestamp - last_packet_signature.options.timestamp
+    ) & 0xFFFFFFFF
+    ts_diff_inv = ~ts_diff & 0xFFFFFFFF
 
     # Wait at least 25 ms, and not more than 10 minutes, for at least 5
     # timestamp ticks. Allow the timestamp to go back slightly within
@@ -62,13 +66,14 @@ def fingerprint_uptime(
         ts_diff < 5
         or (
             ms_diff < options.timestamp_grace
-            and ~ts_diff // 1000 < options.max_timestamp_scale / options.timestamp_grace
+            and ts_diff_inv // 1000
+            < options.max_timestamp_scale / options.timestamp_grace
         )
     ):
         return UptimeResult(packet)
 
-    if ts_diff > ~ts_diff:
-        raw_frequency = ~ts_diff * -1000.0 / ms_diff
+    if ts_diff > ts_diff_inv:
+        raw_frequency = ts_diff_inv * -1000.0 / ms_diff
     else:
         raw_frequency = ts_diff * 1000.0 / ms_diff
 
